@@ -71,6 +71,13 @@ def run(ctx):
                 for i, (k, _) in enumerate(keys):
                     spell = str(i + 2) if positional else k
                     order.append(spell + ("" if dirs[i] and r.chance(1, 2) else (" asc" if dirs[i] else " desc")))
+                # a key may be listed again later (by name or by position, any direction): the first mention decides,
+                # the repeat can never change the order
+                if r.chance(1, 4):
+                    j = r.below(len(keys))
+                    spell = str(j + 2) if r.chance(1, 2) else keys[j][0]
+                    order.insert(r.range(j + 1, len(order)), spell + r.choice(["", " asc", " desc", " desc"]))
+                    ctx.count("repeated_key")
                 q_un = "select %s from .%s into list" % (", ".join(sel), where)
                 q_or = "select %s from .%s order by %s into list" % (", ".join(sel), where, ", ".join(order))
                 ctx.case((t, q_or))
@@ -100,7 +107,7 @@ def run(ctx):
                     ctx.oracle_fail("adjacent rows out of order", case, detail={"rows": ro[bad:bad + 2], "keys": keys, "asc": dirs})
                 ctx.sample({"argv": [q_or], "rows": len(ro)}, every=37)
                 # a key need not be selected: same path order when the keys are dropped from the select list
-                if r.chance(1, 4) and not positional:
+                if r.chance(1, 4) and not positional and not any(o.split(" ")[0].isdigit() for o in order):
                     q2 = "select path from .%s order by %s into list" % (where, ", ".join(order))
                     r2 = common.run_cli([q2], cwd=snap.root, scratch=scratch, tz=snap.tz)
                     ctx.case((t, q2))
